@@ -10,6 +10,8 @@
 mod progen;
 #[path = "../c03/host.rs"]
 mod host;
+#[path = "../c03/glue.rs"]
+mod glue;
 
 use host::*;
 use roto::{FileTree, List, Package, RotoString, Val, Verdict};
@@ -170,7 +172,7 @@ struct Reject {
 
 impl Reject {
     /// the construct class a rejection (and the measured defect behind it) belongs to
-    fn class(&self) -> String {
+    fn class(&self, src: &str) -> String {
         let strip = |s: &str| -> String {
             let last = s.rsplit('.').next().unwrap_or(s);
             last.chars().filter(|c| !c.is_ascii_digit() && *c != '(' && *c != ')').collect()
@@ -179,8 +181,19 @@ impl Reject {
             return "aggregate-literal-diverging-field".into();
         }
         if self.arg && self.reason == "return-leak" {
-            // an argument temporary still owned at a `return` that a later argument executes
-            return "diverging-later-call-argument".into();
+            // An argument temporary still owned at an exit. The known class is: the exit sits
+            // in a *later argument / operand* of a call, list literal or operator. If the script
+            // has no exit in such a position the leak has another cause; when its only exits in
+            // expression position sit inside f-string interpolations the leaked temporary is the
+            // f-string's accumulator (or a part on its way to `append`).
+            let sites = exit_sites(src);
+            if sites.iter().any(|s| s.later_operand) {
+                return "diverging-later-call-argument".into();
+            }
+            if sites.iter().any(|s| s.in_interpolation) {
+                return "f-string-interpolation-exit".into();
+            }
+            return format!("call-argument-leak:{}", strip(&self.def_block));
         }
         if self.def_block.contains("guard_") {
             if self.var.starts_with('$') {
@@ -198,6 +211,134 @@ impl Reject {
         }
         format!("other:{}:{}", strip(&self.def_block), self.reason)
     }
+}
+
+/// Where an early exit (`return` / `accept` / `reject` / `(…)?`) of the script sits.
+#[derive(Debug, Clone, Copy, PartialEq)]
+pub struct ExitSite {
+    /// inside the `{…}` of an f-string
+    pub in_interpolation: bool,
+    /// after a `,` inside `(…)` / `[…]` or after a binary operator of an enclosing expression
+    pub later_operand: bool,
+}
+
+/// Scan our own scripts (generated or from the table) for the syntactic position of every exit.
+pub fn exit_sites(src: &str) -> Vec<ExitSite> {
+    #[derive(PartialEq, Clone, Copy)]
+    enum K {
+        Paren,
+        Brace,
+        Interp,
+        FStr,
+    }
+    // only `main` (the prelude's functions are the same in every script)
+    let body = src.find("main(").and_then(|i| src[i..].find('{').map(|j| &src[i + j..])).unwrap_or(src);
+    let b: Vec<char> = body.chars().collect();
+    let mut stack: Vec<(K, bool)> = vec![];
+    let mut out = vec![];
+    let mut i = 0;
+    let word_at = |i: usize, w: &str| -> bool {
+        let n = w.chars().count();
+        i + n <= b.len()
+            && b[i..i + n].iter().copied().eq(w.chars())
+            && (i == 0 || !(b[i - 1].is_alphanumeric() || b[i - 1] == '_'))
+            && (i + n == b.len() || !(b[i + n].is_alphanumeric() || b[i + n] == '_'))
+    };
+    while i < b.len() {
+        let c = b[i];
+        if stack.last().map(|t| t.0) == Some(K::FStr) {
+            match c {
+                '"' => {
+                    stack.pop();
+                }
+                '{' => stack.push((K::Interp, false)),
+                _ => {}
+            }
+            i += 1;
+            continue;
+        }
+        let site = |stack: &Vec<(K, bool)>| ExitSite {
+            in_interpolation: stack.iter().any(|t| t.0 == K::Interp),
+            later_operand: stack.iter().any(|t| t.1),
+        };
+        match c {
+            'f' if i + 1 < b.len() && b[i + 1] == '"' && (i == 0 || !(b[i - 1].is_alphanumeric() || b[i - 1] == '_')) => {
+                stack.push((K::FStr, false));
+                i += 2;
+                continue;
+            }
+            '"' => {
+                i += 1;
+                while i < b.len() && b[i] != '"' {
+                    i += 1;
+                }
+            }
+            '(' => {
+                // a method call `x.f(…)`: the receiver is an earlier argument
+                let mut j = i;
+                while j > 0 && (b[j - 1].is_alphanumeric() || b[j - 1] == '_') {
+                    j -= 1;
+                }
+                let method = j < i && j > 0 && b[j - 1] == '.';
+                stack.push((K::Paren, method));
+            }
+            // a list literal creates the list handle before its first element
+            '[' => stack.push((K::Paren, true)),
+            '{' => {
+                // `if a == b {` / `while i < n {`: the condition's operators end here
+                let prev = b[..i].iter().rev().find(|c| !c.is_whitespace()).copied().unwrap_or(' ');
+                if let Some(t) = stack.last_mut() {
+                    if t.0 != K::Paren && !matches!(prev, '+' | '=' | '<' | '(' | ',') {
+                        t.1 = false;
+                    }
+                }
+                stack.push((K::Brace, false));
+            }
+            ')' | ']' | '}' => {
+                stack.pop();
+            }
+            ',' => {
+                if let Some(t) = stack.last_mut() {
+                    t.1 = t.0 == K::Paren;
+                }
+            }
+            ';' => {
+                if let Some(t) = stack.last_mut() {
+                    if t.0 != K::Paren {
+                        t.1 = false;
+                    }
+                }
+            }
+            '+' | '<' => {
+                if let Some(t) = stack.last_mut() {
+                    t.1 = true;
+                }
+            }
+            '=' | '!' if i + 1 < b.len() && b[i + 1] == '=' => {
+                if let Some(t) = stack.last_mut() {
+                    t.1 = true;
+                }
+                i += 1;
+            }
+            '=' if i + 1 < b.len() && b[i + 1] == '>' => {
+                i += 1;
+            }
+            '?' => {
+                let prev = b[..i].iter().rev().find(|c| !c.is_whitespace());
+                if prev == Some(&')') {
+                    out.push(site(&stack));
+                }
+            }
+            _ => {
+                if word_at(i, "return") || word_at(i, "accept") || word_at(i, "reject") {
+                    out.push(site(&stack));
+                    i += 5;
+                }
+            }
+        }
+        i += 1;
+    }
+    out
 }
 
 struct Checked {
@@ -249,6 +390,115 @@ fn balance_json(b: &Balance) -> Value {
 
 /// One script through both oracles. Returns the class signature.
 fn one_case(rep: &mut Report, drv: &mut Driver, src: &str, ret: Ret, origin: &str) {
+    one_case_glue(rep, drv, src, ret, origin, None)
+}
+
+/// The generated drop and clone functions in the LIR of `src`, canonically: per function the
+/// list (one entry per variant block, or one for a record) of what it performs.
+/// drop: `offset/kind`, `r` = a runtime drop function, `g` = a call of another generated drop
+/// function. clone: `v<src>>r<dst>/kind` and `v<src>>r<dst>#<bytes>` for a memcpy, where `v` is
+/// an offset from the source (`val`) and `r` one from the destination (`$return`).
+fn lir_glue_functions(src: &str) -> Result<(Vec<Vec<String>>, Vec<Vec<String>>), String> {
+    let rt = runtime();
+    let text = roto::verif_hooks::core::lower_to_mir(FileTree::test_file("c03.roto", src, 0), &rt)
+        .map_err(|e| format!("{e}"))?
+        .lower_to_lir()
+        .text();
+    let (mut drops, mut clones): (Vec<Vec<String>>, Vec<Vec<String>>) = (vec![], vec![]);
+    // (blocks, pointer variables, has a switch, is a clone function)
+    let mut cur: Option<(Vec<String>, std::collections::HashMap<String, String>, bool, bool)> = None;
+    for line in text.lines() {
+        let l = line.trim();
+        if l.starts_with("fn ::generated::drop_") || l.starts_with("fn ::generated::clone_") {
+            cur = Some((vec![], Default::default(), false, l.starts_with("fn ::generated::clone_")));
+            continue;
+        }
+        let Some((blocks, ptrs, is_enum, is_clone)) = cur.as_mut() else { continue };
+        if l == "}" {
+            let (mut blocks, _, is_enum, is_clone) = cur.take().unwrap();
+            if is_enum && !blocks.is_empty() {
+                blocks.remove(0); // the block holding the switch
+            }
+            if is_clone { clones.push(blocks) } else { drops.push(blocks) }
+            continue;
+        }
+        if l.starts_with('.') {
+            blocks.push(String::new());
+            continue;
+        }
+        if l.starts_with("switch ") {
+            *is_enum = true;
+            continue;
+        }
+        let clone_fn = *is_clone;
+        let ptr = |ptrs: &std::collections::HashMap<String, String>, v: &str| -> String {
+            match v {
+                "val" => if clone_fn { "v0".into() } else { "0".into() },
+                "$return" => "r0".into(),
+                _ => ptrs.get(v).cloned().unwrap_or_else(|| format!("?{v}")),
+            }
+        };
+        let mut push = |e: String| {
+            if let Some(b) = blocks.last_mut() {
+                if !b.is_empty() {
+                    b.push(' ');
+                }
+                b.push_str(&e);
+            }
+        };
+        if let Some((lhs, rhs)) = l.split_once(" = ptr::offset(") {
+            let mut it = rhs.trim_end_matches(')').split(',').map(|x| x.trim());
+            let (base, off) = (it.next().unwrap_or(""), it.next().unwrap_or(""));
+            let p = match base {
+                "val" => if clone_fn { format!("v{off}") } else { off.to_string() },
+                "$return" => format!("r{off}"),
+                o => format!("?{o}+{off}"),
+            };
+            ptrs.insert(lhs.trim().to_string(), p);
+        } else if let Some(r) = l.strip_prefix("mem::drop(") {
+            let v = r.split(',').next().unwrap_or("").trim();
+            push(format!("{}/r", ptr(ptrs, v)));
+        } else if let Some(r) = l.strip_prefix("::generated::drop_") {
+            let v = r.split('(').nth(1).unwrap_or("").trim_end_matches(')').trim();
+            push(format!("{}/g", ptr(ptrs, v)));
+        } else if let Some(r) = l.strip_prefix("mem::clone(") {
+            let mut it = r.trim_end_matches(')').split(',').map(|x| x.trim());
+            let (d, s_) = (it.next().unwrap_or(""), it.next().unwrap_or(""));
+            push(format!("{}>{}/r", ptr(ptrs, s_), ptr(ptrs, d)));
+        } else if let Some(r) = l.strip_prefix("mem::copy(") {
+            let mut it = r.trim_end_matches(')').split(',').map(|x| x.trim());
+            let (d, s_, n) = (it.next().unwrap_or(""), it.next().unwrap_or(""), it.next().unwrap_or(""));
+            push(format!("{}>{}#{n}", ptr(ptrs, s_), ptr(ptrs, d)));
+        } else if let Some(r) = l.strip_prefix("::generated::clone_") {
+            let args = r.split('(').nth(1).unwrap_or("").trim_end_matches(')');
+            let mut it = args.split(',').map(|x| x.trim());
+            let (d, s_) = (it.next().unwrap_or(""), it.next().unwrap_or(""));
+            push(format!("{}>{}/g", ptr(ptrs, s_), ptr(ptrs, d)));
+        } else if l.starts_with("return") || l.is_empty() || l.contains("mem::read(") || l.starts_with("mem::write($return,")
+            || (l.starts_with('$') && l.contains(": ") && !l.contains('=')) {
+        } else {
+            // anything else inside a glue function is outside the model
+            push(format!("?{l}"));
+        }
+    }
+    Ok((drops, clones))
+}
+
+/// `D<i> v<k>: …` groups of the model's answer → per declaration the list of variant strings
+fn parse_shallow(ans: &str) -> std::collections::BTreeMap<usize, Vec<String>> {
+    let mut m: std::collections::BTreeMap<usize, Vec<String>> = Default::default();
+    for g in ans.split(" ; ") {
+        let Some((head, body)) = g.split_once(':') else { continue };
+        let head = head.trim();
+        // drop functions under 2*decl, clone functions under 2*decl + 1
+        let odd = if head.starts_with('C') { 1 } else { 0 };
+        let Some(d) = head.get(1..).and_then(|h| h.split(' ').next()).and_then(|d| d.parse::<usize>().ok()) else { continue };
+        m.entry(2 * d + odd).or_default().push(body.trim().to_string());
+    }
+    m
+}
+
+fn one_case_glue(rep: &mut Report, drv: &mut Driver, src: &str, ret: Ret, origin: &str, glue_nums: Option<(&[u64], &[bool])>) {
     let checked = match check_script(drv, src) {
         Ok(c) => c,
         Err(_) => {
@@ -267,7 +517,8 @@ fn one_case(rep: &mut Report, drv: &mut Driver, src: &str, ret: Ret, origin: &st
             return;
         }
     };
-    // measured oracle: every steering input, second call measures allocations too
+    // measured oracle: every steering input; where the tokens balance a second (warm) call
+    // measures the heap too: a leaked or doubly freed String / List shows as an allocation delta
     let mut bad: Option<(Inputs, Balance)> = None;
     let mut alloc_bad: Option<(Inputs, Balance)> = None;
     let mut sig = std::collections::BTreeSet::new();
@@ -275,7 +526,15 @@ fn one_case(rep: &mut Report, drv: &mut Driver, src: &str, ret: Ret, origin: &st
         let b1 = match call_once(&mut pkg, ret, i) {
             Ok(b) => b,
             Err(e) => {
-                rep.mismatch("main has an unexpected signature", json!({"script": src, "error": e}));
+                // A generated script may leave a type undetermined (`[].get(0)` whose element is
+                // never used): the signature gate then refuses `main`. Whether that refusal is
+                // right is property C04's business; the script cannot be run, so it is skipped
+                // (visible in the `compile` histogram).
+                if origin.starts_with("gen:") {
+                    rep.hist("compile", "main-not-obtainable-skipped");
+                } else {
+                    rep.mismatch("main has an unexpected signature", json!({"script": src, "error": e}));
+                }
                 return;
             }
         };
@@ -294,31 +553,98 @@ fn one_case(rep: &mut Report, drv: &mut Driver, src: &str, ret: Ret, origin: &st
     }
     rep.hist("paths-per-program", format!("{}", sig.len().min(12)));
     let input = |i: &Inputs, b: &Balance| {
-        json!({"script": src, "ret": ret.name(), "inputs": {"n": i.n, "m": i.m, "c": i.c},
-               "balance": balance_json(b), "origin": origin})
+        let mut v = json!({"script": src, "ret": ret.name(), "inputs": {"n": i.n, "m": i.m, "c": i.c},
+               "balance": balance_json(b), "origin": origin});
+        if let Some((nums, reach)) = glue_nums {
+            v["glue_nums"] = json!(nums);
+            v["glue_reach"] = json!(reach);
+        }
+        v
     };
-    match (&bad, checked.rejects.first()) {
-        (None, None) => {
-            if let Some((i, b)) = &alloc_bad {
-                rep.violation(
-                    &format!("heap allocations not balanced after the call (delta {}): a string or list leaked or was freed twice", b.allocs),
-                    "alloc-imbalance", input(i, b));
+    let glue = origin.starts_with("glue");
+    // token imbalance first, then heap imbalance
+    let measured = bad.or(alloc_bad);
+    // drop / clone glue: what the Lean model of the generated functions (the loops as extracted
+    // from the current source) says about these declarations, and whether the generated
+    // functions in the real LIR are the model's
+    let mut model_says: Option<String> = None;
+    if let Some((nums, reach)) = glue_nums {
+        let ans = drv.ask(&format!("c03 glue-check {}", nums_line(nums)));
+        if !ans.starts_with("ok") && !ans.starts_with("mismatch") {
+            rep.mismatch("driver could not read the glue declarations", json!({"script": src, "answer": ans}));
+        }
+        if ans.starts_with("mismatch") {
+            model_says = Some(ans);
+        }
+        let shallow = parse_shallow(&drv.ask(&format!("c03 glue-shallow {}", nums_line(nums))));
+        match lir_glue_functions(src) {
+            Ok((dfns, cfns)) => {
+                for (key, variants) in &shallow {
+                    let (d, is_clone) = (key / 2, key % 2 == 1);
+                    // a function is generated for a declaration that is part of the value and
+                    // holds something to drop (otherwise it is memcpy'd / ignored by the caller)
+                    let droppable = shallow.get(&(2 * d)).is_some_and(|v| v.iter().any(|x| !x.is_empty()));
+                    if !reach.get(d).copied().unwrap_or(false) || !droppable {
+                        continue;
+                    }
+                    rep.evaluations += 1;
+                    let fns = if is_clone { &cfns } else { &dfns };
+                    if !fns.iter().any(|f| f == variants) {
+                        rep.mismatch(
+                            &format!("no generated {} function in the LIR performs what the model computes for declaration {} ({}): the model of {} is not faithful",
+                                if is_clone { "clone" } else { "drop" }, d, variants.join(" | "), if is_clone { "clones.rs" } else { "drops.rs" }),
+                            json!({"script": src, "origin": origin, "model": variants, "lir": fns}));
+                    }
+                }
             }
-            rep.class(format!("balanced:{}", class_sig(src)));
+            Err(e) => rep.mismatch("glue script does not lower to LIR", json!({"script": src, "error": e})),
+        }
+    }
+    let describe = |b: &Balance| {
+        if b.ok() {
+            format!("heap allocations not balanced after the call (delta {:+}): a String or List leaked or was freed twice", b.allocs)
+        } else {
+            format!("live-token delta {}, double drops {}, use after drop {}", b.live, b.double_drop, b.use_after_drop)
+        }
+    };
+    match (&measured, checked.rejects.first()) {
+        (None, None) if model_says.is_some() => {
+            rep.mismatch(
+                &format!("the glue model predicts a wrong release ({}) but every path balanced on the real code", model_says.clone().unwrap_or_default()),
+                json!({"script": src, "origin": origin}));
+        }
+        (None, None) => {
+            rep.class(if glue { format!("balanced-glue:{}", class_of_glue(origin, src)) } else { format!("balanced:{}", class_sig(src)) });
         }
         (Some((i, b)), Some(r)) => {
             rep.violation(
-                &format!("{}: live-token delta {}, double drops {}, use after drop {} (checker: {} at {} on {} [{}])",
-                    r.class(), b.live, b.double_drop, b.use_after_drop, r.reason, r.block, r.var, r.status),
-                &r.class(), input(i, b));
-            rep.class(format!("defect:{}", r.class()));
+                &format!("{}: {} (checker: {} at {} on {} [{}])", r.class(src), describe(b), r.reason, r.block, r.var, r.status),
+                &r.class(src), input(i, b));
+            rep.class(format!("defect:{}", r.class(src)));
+        }
+        (Some((i, b)), None) if glue => {
+            // the MIR is justified by the verified checker: what is wrong is below it, in the
+            // generated drop / clone functions of the declared types
+            rep.violation(
+                &format!("drop/clone glue: {} for a value of the declared types ({}) on the path n={} m={} c={}; the MIR is accepted by the verified checker; glue model on the current loops: {}",
+                    describe(b), src.lines().filter(|l| l.starts_with("record") || l.starts_with("enum")).collect::<Vec<_>>().join("; "), i.n, i.m, i.c,
+                    model_says.clone().unwrap_or_else(|| "no wrong release predicted".into())),
+                "drop-clone-glue", input(i, b));
+            if glue_nums.is_some() && model_says.is_none() {
+                rep.mismatch("imbalance measured on a glue program for which the model predicts exact release", input(i, b));
+            }
+            rep.class("defect:drop-clone-glue".to_string());
         }
         (Some((i, b)), None) => {
-            rep.violation(
-                &format!("imbalance measured (live {}, double drops {}, use after drop {}) on a program the verified checker accepted",
-                    b.live, b.double_drop, b.use_after_drop),
-                "unpredicted-imbalance", input(i, b));
-            rep.mismatch("checker accepted, execution imbalanced: the ownership model is not faithful here", input(i, b));
+            if b.ok() {
+                rep.violation(&describe(b), "alloc-imbalance", input(i, b));
+            } else {
+                rep.violation(
+                    &format!("imbalance measured ({}) on a program the verified checker accepted", describe(b)),
+                    "unpredicted-imbalance", input(i, b));
+                rep.mismatch("checker accepted, execution imbalanced: the ownership model is not faithful here", input(i, b));
+            }
+            rep.class(format!("balanced:{}", class_sig(src)));
         }
         (None, Some(r)) => {
             // The checker cannot justify this program and none of the steering inputs drives
@@ -326,12 +652,17 @@ fn one_case(rep: &mut Report, drv: &mut Driver, src: &str, ret: Ret, origin: &st
             // rejection stands as a broken obligation of that construct class.
             rep.violation(
                 &format!("{}: the verified checker rejects the compiler's MIR ({} at {} on {} [{}]); none of the {} steering inputs reaches the offending path, so no imbalance was measured",
-                    r.class(), r.reason, r.block, r.var, r.status, all_inputs().len()),
-                &r.class(),
+                    r.class(src), r.reason, r.block, r.var, r.status, all_inputs().len()),
+                &r.class(src),
                 json!({"script": src, "ret": ret.name(), "origin": origin, "confirmed": false}));
-            rep.class(format!("defect-unconfirmed:{}", r.class()));
+            rep.class(format!("defect-unconfirmed:{}", r.class(src)));
         }
     }
+}
+
+/// class of a glue program: the field-order pattern of its declarations (carried in the origin)
+fn class_of_glue(origin: &str, _src: &str) -> String {
+    origin.split('|').nth(1).unwrap_or("?").to_string()
 }
 
 /// signature of a program: which constructs it uses
@@ -378,10 +709,50 @@ fn table() -> Vec<(&'static str, Ret, String)> {
         ("clean-assign-loop", Ret::Str, f("String", "let x = s; let i = 0; while i < n { x = x + \"a\"; i = i + 1; } x")),
         ("clean-match", Ret::Str, f("String", "match opt(t, c) { Some(y) => name(y), None => s }")),
         ("clean-fstring", Ret::Str, f("String", "f\"a{n}b{s}c{name(t)}\"")),
+        // early exits inside f-string interpolations: the accumulator and the parts appended so far
+        ("clean-fstring-question", Ret::OptTk, f("Tk?", "let x = f\"a{n}b{id(maybe(c, m)?)}c\"; Some(mk(slen(x)))")),
+        ("clean-fstring-question-first", Ret::OptTk, f("Tk?", "let x = f\"{id(maybe(c, m)?)}\"; Some(mk(slen(x)))")),
+        ("clean-fstring-return", Ret::Str, f("String", "f\"a{name(t)}b{if c { return s } else { n }}c\"")),
+        ("clean-fstring-return-nested", Ret::U32, f("u32", "let x = f\"a{match opt(t, c) { Some(y) => id(y), None => { return 7 } }}b{s}\"; slen(x)")),
+        ("clean-fstring-in-loop-return", Ret::U32, f("u32", "let i = 0; while i < n { let x = f\"p{i}q{if i == m { return i } else { s }}\"; i = i + slen(x); } i")),
+        // several `?` in one function whose sets of live values differ (a value created between
+        // them; a value of an inner scope that is gone at the second)
+        ("clean-question-twice", Ret::OptTk, f("Tk?", "let a = maybe(c, n)?; let b = mk(id(a)); let d = maybe((m == 1), 2)?; Some(thru(b))")),
+        ("clean-question-inner-scope", Ret::OptTk, f("Tk?", "let a = { let z = mk(1); id(maybe(c, n)?) + id(z) }; let d = maybe((m == 1), a)?; Some(d)")),
+        ("clean-question-in-branches", Ret::OptTk, f("Tk?", "let a = if c { let z = mk(1); same(maybe((n == 1), 1)?, z) } else { false }; let y = mk(2); let d = maybe((m == 1), 2)?; if a { Some(y) } else { Some(d) }")),
+        ("clean-question-in-loop", Ret::OptTk, f("Tk?", "let i = 0; let acc = mk(0); while i < n { let e = maybe((i < m), i)?; acc = thru(e); i = i + 1; } Some(acc)")),
+        ("clean-question-in-match-arm", Ret::OptTk, f("Tk?", "match opt(t, c) { Some(y) => { let z = maybe((n == 1), 1)?; if same(y, z) { Some(mk(1)) } else { maybe((m == 1), 2)? ; None } }, None => Some(mk(id(maybe((m == 2), 3)?))) }")),
+        // several exits of the same kind whose live sets differ
+        ("clean-returns-differ", Ret::U32, f("u32", "let a = mk(1); if c { return 1; } let b = mk(2); if n == 1 { return id(a); } if n == 2 { let z = mk(3); if m == 1 { return id(z) + id(b); } } 4")),
+        ("clean-accepts-differ", Ret::Verdict, format!("{pre}filtermap main({p}) {{ let a = mk(1); if c {{ accept a }} let b = \"x\" + s; if n == 1 {{ reject b }} let z = mk(3); if m == 1 {{ accept z }} reject b }}\n")),
+        // values nobody uses: loop elements, match bindings, discarded results, constants
+        ("clean-for-unused-element", Ret::U32, f("u32", "let k = 0; for e in many(n) { k = k + 1; } for e in [t, mk(1)] { if c { return k; } } k")),
+        ("clean-match-unused-binding", Ret::U32, f("u32", "let a = match opt(t, c) { Some(y) => 1, None => 2 }; a + match E.B(s, mk(3)) { B(q, x) => 1, A(x) => 2, C => 3 }")),
+        ("clean-discard", Ret::U32, f("u32", "mk(1); name(mk(2)); many(n); [t]; f\"a{n}\"; opt(mk(4), c); E.A(mk(5)); R { a: mk(6), b: s, k: 1 }; 3")),
+        ("clean-constants", Ret::U32, f("u32", "let a = KT; let i = 0; while i < n { let b = KS; i = i + id(KT) + slen(b); } id(a) + slen(KS)")),
+        ("clean-assign-rhs-exits", Ret::U32, f("u32", "let x = mk(1); x = if c { return 7 } else { mk(2) }; let r = R { a: x, b: s, k: n }; r.a = if n == 1 { return 8 } else { t }; id(r.a)")),
+        // exits while other compiler-internal values are pending
+        ("clean-for-return", Ret::U32, f("u32", "for e in many(n) { if id(e) == m { return 1; } } 0")),
+        ("clean-match-scrutinee-return", Ret::U32, f("u32", "match E.B(s, t) { B(q, x) => { if c { return 1; } slen(q) + id(x) }, A(x) => id(x), C => 0 }")),
         ("witness-call-arg", Ret::U32, f("u32", "let b = same(mk(1), if c { return 3 } else { mk(2) }); 3")),
         ("witness-list-literal", Ret::U32, f("u32", "let l = [mk(1), if c { return 3 } else { mk(2) }]; 3")),
+        ("clean-fstring-accept", Ret::Verdict, format!("{pre}filtermap main({p}) {{ let x = f\"a{{n}}b{{if c {{ accept t }} else {{ m }}}}\"; reject x }}\n")),
         ("clean-list", Ret::ListTk, f("List[Tk]", "let l = [t, mk(1)]; l.push(mk(2)); if c { return l + many(n); } l")),
     ]
+}
+
+/// the glue case `(kind, seed, depth, index)` and its origin string `glue:…|<class>`
+fn glue_case(kind: &str, seed: u64, depth: u32, index: u64) -> Option<(glue::Glue, String)> {
+    if kind == "gtable" {
+        let (name, g) = glue::table().into_iter().nth(index as usize)?;
+        let o = format!("glue-table:{name}|{}", g.class_sig());
+        Some((g, o))
+    } else {
+        let mut rng = Prng::for_case(seed ^ 0x61c8_8646_80b5_83eb, index);
+        let g = glue::Glue::random(&mut rng, depth);
+        let o = format!("glue:{seed}:{index}:{depth}|{}", g.class_sig());
+        Some((g, o))
+    }
 }
 
 fn run_worker_batch(kind: &str, seed: u64, depth: u32, from: u64, n: u64) {
@@ -407,6 +778,16 @@ fn run_worker_batch(kind: &str, seed: u64, depth: u32, from: u64, n: u64) {
                 let t = table();
                 if let Some((name, ret, src)) = t.get(index as usize) {
                     one_case(&mut rep, &mut drv, src, *ret, &format!("table:{name}"));
+                }
+            }
+            "gtable" | "glue" => {
+                if let Some((g, origin)) = glue_case(kind, seed, depth, index) {
+                    rep.hist("glue-decls", format!("{}", g.decls.len()));
+                    if kind == "glue" && index < from + 2 {
+                        rep.sample(json!({"seed": seed, "index": index, "glue": g.describe()}));
+                    }
+                    let (nums, reach) = (g.nums(), g.reachable());
+                    one_case_glue(&mut rep, &mut drv, &g.script(), Ret::U32, &origin, Some((&nums, &reach)));
                 }
             }
             _ => {}
@@ -520,8 +901,8 @@ fn run_corpus(rep: &mut Report, repo: &str) {
         for r in &c.rejects {
             rep.mismatch(
                 &format!("corpus script: checker rejects item {} ({} at {} on {} [{}], class {}); it cannot be executed by the harness, so the search cannot decide",
-                    r.item, r.reason, r.block, r.var, r.status, r.class()),
-                json!({"script": src, "origin": name, "class": r.class()}));
+                    r.item, r.reason, r.block, r.var, r.status, r.class(src)),
+                json!({"script": src, "origin": name, "class": r.class(src)}));
         }
         if c.rejects.is_empty() {
             rep.class(format!("corpus:{name}"));
@@ -544,12 +925,29 @@ fn on_crash(rep: &mut Report, kind: &str, seed: u64, depth: u32, index: u64, end
             let (s, r, _) = gen_case(seed, index, depth);
             (s, r)
         }
+        "gtable" | "glue" => match glue_case(kind, seed, depth, index) {
+            Some((g, origin)) => {
+                // the MIR of a glue program is plain; a crash here is the generated drop / clone
+                // function running on something that is not a value
+                let src = g.script();
+                let mir_ok = Driver::spawn().ok().map(|mut d| check_script(&mut d, &src)).and_then(|r| r.ok()).is_some_and(|c| c.rejects.is_empty());
+                rep.violation(
+                    &format!("drop/clone glue: the host process died ({}) while a value of the declared types ({}) was created, cloned and released{}",
+                        match ended { rotov_harness::worker::Ended::Signal(s, _) => format!("signal {s}"), e => format!("{e:?}").chars().take(60).collect() },
+                        g.describe(), if mir_ok { "; the MIR is accepted by the verified checker" } else { "" }),
+                    "drop-clone-glue",
+                    json!({"script": src, "ret": "u32", "origin": origin, "crash": true}));
+                rep.class("defect:drop-clone-glue".to_string());
+                return;
+            }
+            None => return,
+        },
         _ => table().get(index as usize).map(|t| (t.2.clone(), t.1)).unwrap_or_default_case(),
     };
     // classify by what the verified checker says about the script
     let (key, why) = match Driver::spawn().ok().map(|mut d| check_script(&mut d, &src)) {
         Some(Ok(c)) => match c.rejects.first() {
-            Some(r) => (r.class(), format!("checker: {} at {} on {} [{}]", r.reason, r.block, r.var, r.status)),
+            Some(r) => (r.class(&src), format!("checker: {} at {} on {} [{}]", r.reason, r.block, r.var, r.status)),
             None => {
                 // Heap corruption surfaces late: the blamed script may be innocent. Run it alone.
                 if kind == "gen" {
@@ -595,8 +993,13 @@ fn main() {
             let timeout = std::time::Duration::from_secs(30);
             // 1. the table (witnesses first)
             let nt = table().len() as u64;
-            rotov_harness::worker::run_batches(&["table", "0", "0"], nt, 4, timeout, &mut rep,
+            // one process per representative: a crash must not swallow the verdicts of its neighbours
+            rotov_harness::worker::run_batches(&["table", "0", "0"], nt, 1, timeout, &mut rep,
                 |rep, idx, ended| on_crash(rep, "table", 0, 0, idx, ended));
+            // 1b. drop/clone glue: the class representatives of declared types
+            let ng = glue::table().len() as u64;
+            rotov_harness::worker::run_batches(&["gtable", "0", "0"], ng, 1, timeout, &mut rep,
+                |rep, idx, ended| on_crash(rep, "gtable", 0, 0, idx, ended));
             // 2. the repository's own scripts
             run_corpus(&mut rep, &repo);
             // 3. generated programs, shallow first
@@ -606,6 +1009,14 @@ fn main() {
                 let (sd, dp) = (seed, *depth);
                 rotov_harness::worker::run_batches(&["gen", &s, &d], *total, 40, timeout, &mut rep,
                     |rep, idx, ended| on_crash(rep, "gen", sd, dp, idx, ended));
+            }
+            // 4. drop/clone glue on generated type declarations
+            let gplan: &[(u32, u64)] = if thorough { &[(1, 300), (2, 600), (3, 600)] } else { &[(1, 40), (2, 60), (3, 40)] };
+            for (depth, total) in gplan {
+                let (s, d) = (seed.to_string(), depth.to_string());
+                let (sd, dp) = (seed, *depth);
+                rotov_harness::worker::run_batches(&["glue", &s, &d], *total, 40, timeout, &mut rep,
+                    |rep, idx, ended| on_crash(rep, "glue", sd, dp, idx, ended));
             }
             // replays: measured (script + inputs) before predicted-only
             rep.impl_violations.sort_by_key(|v| v["input"]["confirmed"] == json!(false) || v["input"]["crash"] == json!(true));
@@ -617,7 +1028,10 @@ fn main() {
             let ret = Ret::parse(v["ret"].as_str().unwrap_or("u32")).expect("ret");
             let mut rep = Report::default();
             let mut drv = Driver::spawn().expect("lean driver");
-            one_case(&mut rep, &mut drv, src, ret, "replay");
+            let nums: Option<Vec<u64>> = v["glue_nums"].as_array().map(|a| a.iter().filter_map(|x| x.as_u64()).collect());
+            let reach: Vec<bool> = v["glue_reach"].as_array().map(|a| a.iter().map(|x| x.as_bool().unwrap_or(false)).collect()).unwrap_or_default();
+            one_case_glue(&mut rep, &mut drv, src, ret, v["origin"].as_str().unwrap_or("replay"),
+                nums.as_ref().map(|n| (n.as_slice(), reach.as_slice())));
             rep.emit();
         }
         Some("worker") => {
@@ -641,6 +1055,13 @@ fn main() {
                 }
             }
             rep.emit();
+        }
+        Some("lir") => {
+            let rt = runtime();
+            match roto::verif_hooks::core::lower_to_mir(FileTree::test_file("c03.roto", &args[2], 0), &rt) {
+                Ok(m) => println!("{}", m.lower_to_lir().text()),
+                Err(e) => println!("ERROR\n{e}"),
+            }
         }
         Some("dump") => match dump(&args[2]) {
             Ok(items) => {
